@@ -366,7 +366,7 @@ spif_array_list_dup(spif_array_t self)
     memcpy(tmp, self, SPIF_SIZEOF_TYPE(array));
     tmp->items = (spif_obj_t *) MALLOC(sizeof(spif_obj_t) * self->len);
     for (i = 0; i < self->len; i++) {
-        tmp->items[i] = (spif_obj_t) SPIF_OBJ_DUP(SPIF_OBJ(self->items[i]));
+        tmp->items[i] = ((SPIF_OBJ_ISNULL(self->items[i])) ? ((spif_obj_t) NULL) : ((spif_obj_t) SPIF_OBJ_DUP(SPIF_OBJ(self->items[i]))));
     }
     return tmp;
 }
@@ -384,7 +384,7 @@ spif_array_vector_dup(spif_array_t self)
     memcpy(tmp, self, SPIF_SIZEOF_TYPE(array));
     tmp->items = (spif_obj_t *) MALLOC(sizeof(spif_obj_t) * self->len);
     for (i = 0; i < self->len; i++) {
-        tmp->items[i] = (spif_obj_t) SPIF_OBJ_DUP(SPIF_OBJ(self->items[i]));
+        tmp->items[i] = ((SPIF_OBJ_ISNULL(self->items[i])) ? ((spif_obj_t) NULL) : ((spif_obj_t) SPIF_OBJ_DUP(SPIF_OBJ(self->items[i]))));
     }
     return tmp;
 }
@@ -402,7 +402,7 @@ spif_array_map_dup(spif_array_t self)
     memcpy(tmp, self, SPIF_SIZEOF_TYPE(array));
     tmp->items = (spif_obj_t *) MALLOC(sizeof(spif_obj_t) * self->len);
     for (i = 0; i < self->len; i++) {
-        tmp->items[i] = (spif_obj_t) SPIF_OBJ_DUP(SPIF_OBJ(self->items[i]));
+        tmp->items[i] = ((SPIF_OBJ_ISNULL(self->items[i])) ? ((spif_obj_t) NULL) : ((spif_obj_t) SPIF_OBJ_DUP(SPIF_OBJ(self->items[i]))));
     }
     return tmp;
 }
